@@ -6,9 +6,9 @@ ToNatS(s, i, acc) == IF i > Len(s) THEN acc
 MaxCallsDef == ToNatS(IOEnv.MAXCALLS, 1, 0)
 EveryDef == ToNatS(IOEnv.EVERY, 1, 0)
 OffsetDef == ToNatS(IOEnv.OFFSET, 1, 0)
-AllOps == {"Register", "DropObject", "SetTemplate", "AddUnitSystem", "RemoveUnitSystem", "SetCurrent", "SetDefaultUnit", "RemoveCategory", "GetNewId",
+AllOps == {"Register", "DropObject", "SetDefaultUnitRemoved", "SetTemplate", "AddUnitSystem", "RemoveUnitSystem", "SetCurrent", "SetDefaultUnit", "RemoveCategory", "GetNewId",
            "GetCategoryDefaultUnit", "GetCurrentId", "GetUnitSystemById", "GetQuantityDefaultUnit", "ConvertToCurrent", "ConvertScalarToCurrent"}
-OpsDef == IF IOEnv.OPS = "mut" THEN {"Register", "DropObject", "SetTemplate", "AddUnitSystem", "RemoveUnitSystem", "SetCurrent", "SetDefaultUnit", "RemoveCategory"}
+OpsDef == IF IOEnv.OPS = "mut" THEN {"Register", "DropObject", "SetDefaultUnitRemoved", "SetTemplate", "AddUnitSystem", "RemoveUnitSystem", "SetCurrent", "SetDefaultUnit", "RemoveCategory"}
           ELSE AllOps
 TypeDef == [x \in {"length", "depth", "time", "m", "cm", "s", "min"} |-> IF x \in {"length", "depth", "m", "cm"} THEN "length" ELSE "time"]
 FactorDef == [u \in {"m", "cm", "s", "min"} |-> CASE u = "m" -> <<1, 1>> [] u = "cm" -> <<1, 100>> [] u = "s" -> <<1, 1>> [] u = "min" -> <<60, 1>>]
